@@ -133,6 +133,34 @@ def build(repo=None):
         return outs
 
     eng.method_models["__dictcomp__"] = dictcomp
+
+    def m_dictmerge(e, s, vals, node):
+        # {**A, **B} over (filtered) memos: a mapping whose size is unknown (names may overlap) but which is empty exactly when every source is
+        if not vals or not all(isinstance(v, Opaque) and (v.tag.startswith("filtered:memo:") or v.tag.startswith("memo:")) for v in vals):
+            return None
+        s1 = s.clone()
+        mg = Opaque("merged:" + "+".join(v.tag for v in vals), z3.FreshConst(U, "merged"))
+        nonempty = z3.Or(*[Len(v.t) > 0 for v in vals])
+        s1.pc += [Len(mg.t) >= 0, (Len(mg.t) > 0) == nonempty, e._opaque_truth(mg.t) == nonempty]
+        return [(s1, mg)]
+
+    eng.method_models["__dictmerge__"] = m_dictmerge
+
+    def m_values(e, s, recv, args, kw, nd):
+        if isinstance(recv, Opaque) and recv.tag.startswith("merged:") and not args and not kw:
+            return [(s, Opaque("values-of:" + recv.tag, recv.t))]
+        return None
+
+    eng.method_models["values"] = m_values
+
+    def m_any(e, s, arg, node):
+        # any(<values of a merged mapping>): some value is truthy -- which implies, but is not implied by, the mapping being non-empty
+        if isinstance(arg, Opaque) and arg.tag.startswith("values-of:merged:"):
+            some_truthy = z3.FreshConst(BOOL, "some_value_truthy")
+            return [(s.fork(z3.Implies(some_truthy, Len(arg.t) > 0)), Z("bool", some_truthy))]
+        return None
+
+    eng.method_models["any()"] = m_any
     eng.method_models["__format__"] = lambda e, s, v: Fmt(e.as_u(s, v)) if isinstance(v, Opaque) else None
 
     def find_pieces(s):
